@@ -51,3 +51,71 @@ def match(pid, cfg, tr, verdict):
 
 def match_init(pid, cfg, exc):
     return None
+
+
+# ------------------------------------------------------------------ triggers
+def _frames_upto(tr, v):
+    k = v[1] if v and v[0] == 'R' else len(tr.frames)
+    fr = tr.frames[:max(k, 0)]
+    if tr.partial is not None and (not v or v[0] != 'R' or k > len(tr.frames)):
+        fr = fr + [tr.partial]
+    return fr
+
+
+def _events(tr, v, kinds):
+    for f in _frames_upto(tr, v):
+        for e in f['cev']:
+            if e[0] in kinds:
+                yield e
+    if tr.partial is not None:
+        for e in tr.partial['cev']:
+            if e[0] in kinds:
+                yield e
+
+
+@trigger('F-02a')
+def _f02a(pid, cfg, tr, v):
+    """priority pre-emption of a blocked customer (in or before the failing frame)"""
+    return any(e[5] == 1 for e in _events(tr, v, ('Preempt',)))
+
+
+@trigger('F-02b')
+def _f02b(pid, cfg, tr, v):
+    """pre-emptive shift change / slot interrupting a blocked customer"""
+    return any(e[3] == 1 for e in _events(tr, v, ('Interrupt',)))
+
+
+@trigger('F-02c')
+def _f02c(pid, cfg, tr, v):
+    """a pre-empted customer keeps a reneging date that has already passed"""
+    if v[0] != 'R':
+        return False
+    k = v[1]
+    if k < 1 or k > len(tr.frames):
+        return False
+    victims = set(e[2] for e in _events(tr, v, ('Preempt',))) | set(e[2] for e in _events(tr, v, ('Interrupt',)))
+    snap = tr.frames[k - 1]['snap']
+    now = tr.frames[k - 1]['now']
+    if pid == 'C02' and not (v[2] in (1, 2)):
+        return False
+    for i, ind in snap['inds'].items():
+        rd = ind.get('reneging_date')
+        if i in victims and ind['server'] is None and isinstance(rd, int) and rd < now:
+            return True
+    # the stale date may already have fired: the renege event itself ran in the past
+    f = tr.frames[k - 1]
+    if f['label'][0] == 'renege' and any(x in victims for x in f['label'][2]):
+        return True
+    return False
+
+
+@trigger('F-06a')
+def _f06a(pid, cfg, tr, v):
+    """rejection at a scheduled node whose population is below queue capacity + servers on duty"""
+    if v[0] != 'R' or v[2] != 13 or v[1] < 1:
+        return False
+    f = tr.frames[v[1] - 1]
+    for e in f['cev']:
+        if e[0] == 'Spawn' and isinstance(cfg['servers'][e[1] - 1], dict) and cfg['servers'][e[1] - 1]['kind'] == 'sched':
+            return True
+    return False
